@@ -209,14 +209,16 @@ impl<T: Clone + Ord, U: Paving> Paving for Dim<T, U> {
                 continue;
             }
 
-            if self.cols.is_empty()
+            if (self.cols.is_empty()
                 || range.start < *self.cuts.first().unwrap()
-                || range.end > *self.cuts.last().unwrap()
+                || range.end > *self.cuts.last().unwrap())
+                && *val != Self::Value::default()
             {
                 // There is either no columns either an overlap before the
-                // first column or the last one. In these cases we just need
-                // to ensure the requested value is the default.
-                return *val == Self::Value::default();
+                // first column or the last one. In these cases the requested
+                // value must be the default, and the columns that overlap
+                // with the range still have to be checked.
+                return false;
             }
 
             for ((col_start, col_end), col_val) in self
